@@ -199,6 +199,9 @@ def accumulation(ck, rng):
             ev(X1.copy(), fa, da)
             fb, db = ev(X1.copy())
             ck.count(key=("acc", kind, n))
+            if np.shape(fb) != (n,) or np.shape(db) != X1.shape:
+                ck.violation("accumulate:%s:result-shape" % kind, {"n": n, "res": list(np.shape(fb)), "dres": list(np.shape(db))})
+                continue
             const = getattr(ev, "const", 0.0) if kind == "spline" else 0.0
             if np.abs((fa - f0) - fb).max() > 1e-12 * (1 + np.abs(fb).max()) or np.abs((da - d0) - db).max() > 1e-12 * (1 + np.abs(db).max()):
                 ck.violation("accumulate:%s:not-additive" % kind, {"n": n})
@@ -268,7 +271,7 @@ def main():
         for v in res["violations"]:
             ck.violation(v["site"], v["detail"], v["replay"])
         ck.evaluations += res["evaluations"]
-        ck.distinct |= set(res["distinct"])
+        ck.distinct |= {x if isinstance(x, str) else repr(x) for x in res["distinct"]}
     ck.sample(chosen[0])
     ck.sample(chosen[len(chosen) // 2])
     for res in run_workers(os.path.abspath(__file__), [{"acc": True, "seed": ck.seed}], nproc=1, timeout=1200, allow_crash=True):
@@ -280,7 +283,7 @@ def main():
             for v in res["violations"]:
                 ck.violation(v["site"], v["detail"], v["replay"])
             ck.evaluations += res["evaluations"]
-            ck.distinct |= set(res["distinct"])
+            ck.distinct |= {x if isinstance(x, str) else repr(x) for x in res["distinct"]}
     # extra native baselines (thorough and quick: cheap)
     for mul in ("chachiyo", "damp"):
         for mode in ("SEP", "NPOL"):
